@@ -78,10 +78,13 @@ impl<M: Matcher> Replacer<M> {
             dst.clear();
             matches.clear();
 
+            let at_unterminated_end =
+                is_at_unterminated_end(searcher, haystack, &range);
             replace_with_captures_in_context(
                 matcher,
                 haystack,
                 range.clone(),
+                at_unterminated_end,
                 caps,
                 dst,
                 |caps, dst| {
@@ -511,14 +514,31 @@ where
         trim_line_terminator(searcher, bytes, &mut m);
         bytes = &bytes[..m.end()];
     }
+    let at_unterminated_end =
+        is_at_unterminated_end(searcher, bytes, &range);
     matcher
         .find_iter_at(bytes, range.start, |m| {
-            if m.start() >= range.end {
+            if m.start() >= range.end
+                && !(at_unterminated_end && m.start() == range.end)
+            {
                 return false;
             }
             matched(m)
         })
         .map_err(io::Error::error_message)
+}
+
+/// Returns true if the given range ends at the end of the haystack without
+/// a line terminator. In that case, an (empty) match at the very end of the
+/// haystack still belongs to the last line of the range.
+fn is_at_unterminated_end(
+    searcher: &Searcher,
+    bytes: &[u8],
+    range: &std::ops::Range<usize>,
+) -> bool {
+    range.end == bytes.len()
+        && range.start <= range.end
+        && !searcher.line_terminator().is_suffix(&bytes[range.clone()])
 }
 
 /// Given a buf and some bounds, if there is a line terminator at the end of
@@ -546,6 +566,7 @@ fn replace_with_captures_in_context<M, F>(
     matcher: M,
     bytes: &[u8],
     range: std::ops::Range<usize>,
+    at_unterminated_end: bool,
     caps: &mut M::Captures,
     dst: &mut Vec<u8>,
     mut append: F,
@@ -557,7 +578,9 @@ where
     let mut last_match = range.start;
     matcher.captures_iter_at(bytes, range.start, caps, |caps| {
         let m = caps.get(0).unwrap();
-        if m.start() >= range.end {
+        if m.start() >= range.end
+            && !(at_unterminated_end && m.start() == range.end)
+        {
             return false;
         }
         dst.extend(&bytes[last_match..m.start()]);
